@@ -575,6 +575,264 @@ fn key_derivation_checks(report: &Report, cli: &Cli) {
     }
 }
 
+/// `Curve::scalar_from_bytes` against its documentation: the first CAPACITY bits of the input read
+/// as a little-endian integer, shorter inputs padded with zeros, longer inputs cut. Every single-bit
+/// input over 0..=39 bytes' worth of positions, the all-ones input of every length 0..=40 and 64, and
+/// byte-counting patterns.
+fn scalar_from_bytes_checks<C: Curve>(report: &Report, name: &str)
+where
+    C::Scalar: Serial, {
+    let one = to_bytes(&C::Scalar::one());
+    let big_endian = one[one.len() - 1] == 1;
+    let cap = <C::Scalar as PrimeField>::CAPACITY as usize;
+    let to_int = |s: &C::Scalar| -> num_bigint::BigUint {
+        let b = to_bytes(s);
+        if big_endian {
+            num_bigint::BigUint::from_bytes_be(&b)
+        } else {
+            num_bigint::BigUint::from_bytes_le(&b)
+        }
+    };
+    let mut inputs: Vec<(String, Vec<u8>)> = vec![];
+    for len in (0..=40usize).chain([48, 64]) {
+        inputs.push((format!("{len} x ff"), vec![0xFF; len]));
+        inputs.push((format!("counting {len}"), (0..len).map(|i| (i as u8).wrapping_mul(37).wrapping_add(1)).collect()));
+        for bit in 0..len * 8 {
+            let mut v = vec![0u8; len];
+            v[bit / 8] |= 1 << (bit % 8);
+            // one input per (length class, bit): lengths around the limb and field boundaries only
+            if matches!(len, 1 | 7 | 8 | 9 | 16 | 24 | 31 | 32 | 33 | 40 | 64) {
+                inputs.push((format!("len {len} bit {bit}"), v));
+            }
+        }
+    }
+    for (what, bytes) in inputs {
+        case(report, json!({"scalar_from_bytes": name, "input": what}), || {
+            let got = to_int(&C::scalar_from_bytes(&bytes));
+            let mut le = bytes.clone();
+            le.truncate(32);
+            let expect = num_bigint::BigUint::from_bytes_le(&le) & ((num_bigint::BigUint::from(1u32) << cap) - 1u32);
+            if got != expect {
+                return fail("scalar-from-bytes-differs-from-documentation", json!({"bytes": mc_core::hex(&bytes), "got": got.to_str_radix(16), "expected": expect.to_str_radix(16)}));
+            }
+            report.trace(1);
+            Ok(())
+        });
+    }
+}
+
+fn hmac256(key: &[u8], parts: &[&[u8]]) -> [u8; 32] {
+    use hmac::{Hmac, Mac};
+    let mut m = Hmac::<sha2::Sha256>::new_from_slice(key).expect("any key length");
+    for p in parts {
+        m.update(p);
+    }
+    m.finalize().into_bytes().into()
+}
+
+/// KeyGen of draft-irtf-cfrg-bls-signature-04, section 2.3, written from the draft (HKDF from RFC 5869
+/// over HMAC-SHA256); `deprecated` is the documented little-endian variant kept for old keys.
+fn keygen_reference(ikm: &[u8], key_info: &[u8], deprecated: bool) -> num_bigint::BigUint {
+    use sha2::Digest;
+    let r = num_bigint::BigUint::parse_bytes(b"52435875175126190479447740508185965837690552500527637822603658699938581184513", 10).unwrap();
+    let mut salt: [u8; 32] = sha2::Sha256::digest(b"BLS-SIG-KEYGEN-SALT-").into();
+    let mut ikm0 = ikm.to_vec();
+    ikm0.push(0);
+    let mut info = key_info.to_vec();
+    if deprecated {
+        info.extend_from_slice(&[48, 0]);
+    } else {
+        info.extend_from_slice(&[0, 48]);
+    }
+    loop {
+        let prk = hmac256(&salt, &[&ikm0]);
+        let t1 = hmac256(&prk, &[&info, &[1]]);
+        let t2 = hmac256(&prk, &[&t1, &info, &[2]]);
+        let mut okm = t1.to_vec();
+        okm.extend_from_slice(&t2[..16]);
+        let sk = if deprecated { num_bigint::BigUint::from_bytes_le(&okm) } else { num_bigint::BigUint::from_bytes_be(&okm) } % &r;
+        if sk != num_bigint::BigUint::from(0u32) {
+            return sk;
+        }
+        salt = sha2::Sha256::digest(salt).into();
+    }
+}
+
+fn fr_to_int(s: &<ArCurve as Curve>::Scalar) -> num_bigint::BigUint {
+    let one = to_bytes(&<ArCurve as Curve>::Scalar::one());
+    let b = to_bytes(s);
+    if one[one.len() - 1] == 1 {
+        num_bigint::BigUint::from_bytes_be(&b)
+    } else {
+        num_bigint::BigUint::from_bytes_le(&b)
+    }
+}
+
+/// keygen_bls / keygen_bls_deprecated against the draft, on an (ikm, key_info) grid.
+fn keygen_checks(report: &Report, cli: &Cli) {
+    use rand::RngCore;
+    let mut long = [0u8; 64];
+    rng(cli.seed, 41).fill_bytes(&mut long);
+    let ikms: Vec<Vec<u8>> = vec![vec![], vec![0], vec![1], vec![0; 32], vec![0xFF; 32], long[..32].to_vec(), long.to_vec(), vec![0xAB; 255]];
+    let infos: Vec<Vec<u8>> = vec![vec![], vec![0], b"a".to_vec(), long[..32].to_vec(), vec![0x30; 200]];
+    for ikm in &ikms {
+        for info in &infos {
+            case(report, json!({"keygen_bls": {"ikm": mc_core::hex(ikm), "key_info": mc_core::hex(info)}}), || {
+                let a = keygen_bls::keygen_bls(ikm, info).map_err(|e| ("keygen-failed".to_string(), json!(format!("{e:?}"))))?;
+                let b = keygen_bls::keygen_bls(ikm, info).map_err(|e| ("keygen-failed".to_string(), json!(format!("{e:?}"))))?;
+                if a != b {
+                    return fail("keygen-not-deterministic", json!({}));
+                }
+                if fr_to_int(&a) != keygen_reference(ikm, info, false) {
+                    return fail("keygen-differs-from-the-draft", json!({"got": fr_to_int(&a).to_str_radix(16), "expected": keygen_reference(ikm, info, false).to_str_radix(16)}));
+                }
+                let d = keygen_bls::keygen_bls_deprecated(ikm, info).map_err(|e| ("keygen-failed".to_string(), json!(format!("{e:?}"))))?;
+                if fr_to_int(&d) != keygen_reference(ikm, info, true) {
+                    return fail("deprecated-keygen-differs-from-its-documentation", json!({"got": fr_to_int(&d).to_str_radix(16), "expected": keygen_reference(ikm, info, true).to_str_radix(16)}));
+                }
+                report.trace(1);
+                Ok(())
+            });
+        }
+    }
+}
+
+/// Every getter of the wallet against its documented path (SLIP-10 reference, then KeyGen reference
+/// for the BLS-field values), over a grid that puts every index at 0 / 1 / a middle value / 2^31-1 and
+/// the issuer address at the 16-bit chunk boundaries; 2^31 and above must be refused, not wrap around.
+/// All derived values of one seed are pairwise distinct.
+fn wallet_full_checks(report: &Report, cli: &Cli) {
+    use concordium_base::{contracts_common::ContractAddress, id::types::AttributeTag};
+    use ed25519_hd_key_derivation::harden;
+    use key_derivation::{ConcordiumHdWallet, Net};
+    use rand::RngCore;
+    let mut s = [0u8; 64];
+    rng(cli.seed, 42).fill_bytes(&mut s);
+    let seeds: Vec<[u8; 64]> = if cli.tier == Tier::Quick { vec![s] } else { vec![s, [0u8; 64], [0xFF; 64]] };
+    let idx: Vec<u32> = vec![0, 1, 65536, (1u32 << 31) - 1];
+    let small: Vec<u32> = vec![0, 1, 255];
+    let err = |e: key_derivation::DeriveError| ("derive-failed".to_string(), json!(format!("{e:?}")));
+    for seed in &seeds {
+        let all = std::sync::Mutex::new(std::collections::BTreeMap::<Vec<u8>, String>::new());
+        let note = |k: Vec<u8>, what: String| -> Result<(), (String, serde_json::Value)> {
+            if let Some(prev) = all.lock().unwrap().insert(k, what.clone()) {
+                if prev != what {
+                    return fail("distinct-paths-give-equal-keys", json!({"first": prev, "second": what}));
+                }
+            }
+            Ok(())
+        };
+        for net in [Net::Mainnet, Net::Testnet] {
+            let w = ConcordiumHdWallet { seed: *seed, net };
+            let root = |tail: &[u32]| -> Vec<u32> { [44u32, net.net_code()].iter().chain(tail).map(|i| harden(*i)).collect() };
+            let vcroot = |tail: &[u32]| -> Vec<u32> { [1958950021u32, net.net_code()].iter().chain(tail).map(|i| harden(*i)).collect() };
+            let bls = |path: &[u32]| -> num_bigint::BigUint { keygen_reference(&slip10(path, &seed[..]).0, b"", false) };
+            for &ip in &idx {
+                for &id in &idx {
+                    case(report, json!({"wallet_full": {"net": format!("{net:?}"), "ip": ip, "identity": id, "what": "identity-level values"}}), || {
+                        let a = w.get_id_cred_sec(ip, id).map_err(err)?;
+                        if fr_to_int(&a) != bls(&root(&[ip, id, 2])) {
+                            return fail("wallet-path-differs-from-documentation", json!({"getter": "get_id_cred_sec"}));
+                        }
+                        let p = w.get_prf_key(ip, id).map_err(err)?;
+                        if num_bigint::BigUint::from_bytes_be(&to_bytes(&p)) != bls(&root(&[ip, id, 3])) {
+                            return fail("wallet-path-differs-from-documentation", json!({"getter": "get_prf_key"}));
+                        }
+                        let r = w.get_blinding_randomness(ip, id).map_err(err)?;
+                        if num_bigint::BigUint::from_bytes_be(&to_bytes(&r)) != bls(&root(&[ip, id, 4])) {
+                            return fail("wallet-path-differs-from-documentation", json!({"getter": "get_blinding_randomness"}));
+                        }
+                        note(to_bytes(&a), format!("{net:?} idcredsec {ip} {id}"))?;
+                        note(to_bytes(&p), format!("{net:?} prf {ip} {id}"))?;
+                        note(to_bytes(&r), format!("{net:?} blinding {ip} {id}"))?;
+                        report.trace(1);
+                        Ok(())
+                    });
+                    for &c in &small {
+                        case(report, json!({"wallet_full": {"net": format!("{net:?}"), "ip": ip, "identity": id, "counter": c, "what": "account keys"}}), || {
+                            let sk = w.get_account_signing_key(ip, id, c).map_err(err)?;
+                            let pk = w.get_account_public_key(ip, id, c).map_err(err)?;
+                            if sk != slip10(&root(&[ip, id, 0, c]), &seed[..]).0 {
+                                return fail("wallet-path-differs-from-documentation", json!({"getter": "get_account_signing_key"}));
+                            }
+                            if ed25519_dalek::SigningKey::from_bytes(&sk).verifying_key() != pk {
+                                return fail("public-key-does-not-match-secret", json!({}));
+                            }
+                            note(sk.to_vec(), format!("{net:?} account {ip} {id} {c}"))?;
+                            report.trace(1);
+                            Ok(())
+                        });
+                        for tag in [0u8, 1, 13, 255] {
+                            case(report, json!({"wallet_full": {"net": format!("{net:?}"), "ip": ip, "identity": id, "counter": c, "attribute": tag}}), || {
+                                let r = w.get_attribute_commitment_randomness(ip, id, c, AttributeTag(tag)).map_err(err)?;
+                                if num_bigint::BigUint::from_bytes_be(&to_bytes(&r)) != bls(&root(&[ip, id, 5, c, tag as u32])) {
+                                    return fail("wallet-path-differs-from-documentation", json!({"getter": "get_attribute_commitment_randomness"}));
+                                }
+                                note(to_bytes(&r), format!("{net:?} attribute randomness {ip} {id} {c} {tag}"))?;
+                                report.trace(1);
+                                Ok(())
+                            });
+                        }
+                    }
+                }
+            }
+            // indices that cannot be hardened are refused by every getter
+            for bad in [1u32 << 31, (1u32 << 31) + 1, u32::MAX] {
+                case(report, json!({"wallet_full": {"net": format!("{net:?}"), "unhardenable index": bad}}), || {
+                    let refused = w.get_account_signing_key(bad, 0, 0).is_err()
+                        && w.get_account_signing_key(0, bad, 0).is_err()
+                        && w.get_account_signing_key(0, 0, bad).is_err()
+                        && w.get_account_public_key(0, 0, bad).is_err()
+                        && w.get_id_cred_sec(bad, 0).is_err()
+                        && w.get_id_cred_sec(0, bad).is_err()
+                        && w.get_prf_key(0, bad).is_err()
+                        && w.get_blinding_randomness(bad, 0).is_err()
+                        && w.get_attribute_commitment_randomness(0, 0, bad, AttributeTag(0)).is_err()
+                        && w.get_verifiable_credential_signing_key(ContractAddress::new(0, 0), bad).is_err()
+                        && w.get_verifiable_credential_public_key(ContractAddress::new(0, 0), bad).is_err();
+                    if !refused {
+                        return fail("unhardenable-index-accepted", json!({}));
+                    }
+                    Ok(())
+                });
+            }
+            // verifiable-credential keys: issuer (index, subindex) split into 16-bit chunks, big-endian
+            let addr: Vec<u64> = vec![0, 1, 0xFFFF, 0x1_0000, 0xFFFF_FFFF, 0x1_0000_0000, 0x0001_0002_0003_0004, u64::MAX];
+            for &index in &addr {
+                for &sub in &addr {
+                    for &vc in &[0u32, 1, (1u32 << 31) - 1] {
+                        case(report, json!({"wallet_full": {"net": format!("{net:?}"), "issuer": [index, sub], "credential": vc}}), || {
+                            let sk = w.get_verifiable_credential_signing_key(ContractAddress::new(index, sub), vc).map_err(err)?;
+                            let pk = w.get_verifiable_credential_public_key(ContractAddress::new(index, sub), vc).map_err(err)?;
+                            let ch = |x: u64| -> [u32; 4] { [(x >> 48) as u32 & 0xFFFF, (x >> 32) as u32 & 0xFFFF, (x >> 16) as u32 & 0xFFFF, x as u32 & 0xFFFF] };
+                            let (a, b) = (ch(index), ch(sub));
+                            let path = vcroot(&[0, a[0], a[1], a[2], a[3], b[0], b[1], b[2], b[3], vc, 0]);
+                            if sk != slip10(&path, &seed[..]).0 {
+                                return fail("wallet-path-differs-from-documentation", json!({"getter": "get_verifiable_credential_signing_key"}));
+                            }
+                            if ed25519_dalek::SigningKey::from_bytes(&sk).verifying_key() != pk {
+                                return fail("public-key-does-not-match-secret", json!({}));
+                            }
+                            note(sk.to_vec(), format!("{net:?} vc {index} {sub} {vc}"))?;
+                            report.trace(1);
+                            Ok(())
+                        });
+                    }
+                }
+            }
+            case(report, json!({"wallet_full": {"net": format!("{net:?}"), "what": "backup encryption key"}}), || {
+                let k = w.get_verifiable_credential_backup_encryption_key().map_err(err)?;
+                if k != slip10(&vcroot(&[1]), &seed[..]).0 {
+                    return fail("wallet-path-differs-from-documentation", json!({"getter": "get_verifiable_credential_backup_encryption_key"}));
+                }
+                note(k.to_vec(), format!("{net:?} backup key"))?;
+                Ok(())
+            });
+        }
+        report.add_extra_count("wallet_full_values", all.lock().unwrap().len() as u64);
+    }
+}
+
 pub fn run(cli: &Cli) -> ! {
     let report = Report::new(cli);
     multiexp_curve::<ArCurve>(&report, "G1", cli);
@@ -597,6 +855,10 @@ pub fn run(cli: &Cli) -> ! {
     secret_sharing(&report, cli);
     many_shares(&report, cli);
     key_derivation_checks(&report, cli);
+    scalar_from_bytes_checks::<ArCurve>(&report, "bls-fr");
+    scalar_from_bytes_checks::<RistrettoPoint>(&report, "ed25519-scalar");
+    keygen_checks(&report, cli);
+    wallet_full_checks(&report, cli);
     let n = report.evaluations.load(std::sync::atomic::Ordering::Relaxed);
     report.state(n);
     report.transition(n);
